@@ -837,10 +837,11 @@ fn main() {
     );
     run.assume("valid / invalid are decided from the documented rules (doc comments of field.rs / schema.rs, docs/anda_db_schema.md); read-back grey zones (U64 for I64, F64 for F32, bit-pattern arrays for Vector, anything for Json, untyped positions) are never judged, only 'accepted on write => readable and equal as data'");
     run.assume("an undeclared key of a keyed map in STORED bytes is documented to be pruned on read (removed nested field); write paths must refuse it");
+    run.assume("a nested keyed-map key that was removed and later declared again is compared modulo that key (the docs are silent on whether its stale entries resurface); when it is declared again with ANOTHER type and an old document becomes unreadable, the failure is attributed to the known finding only if the same document minus exactly those stale entries is readable");
     run.assume("JSON null directly under Option and Some(None) are plain-serde-indistinguishable from None and are not generated as valid");
     let t = run.tier;
     let miri = if t == vcore::Tier::Thorough && run.wants("miri") && run.replay.is_none() {
-        let (seed, n) = (run.seed, run.arg_u64("miri_values", 32));
+        let (seed, n) = (run.seed, run.arg_u64("miri_values", 20));
         Some(std::thread::spawn(move || miri_subprocess(seed, n)))
     } else {
         None
@@ -856,7 +857,8 @@ fn main() {
     }
     if run.wants("upgrade") {
         run.parallel("upgrade", t.pick(3_000, 250_000), 0.35, |c, rng, st| upgrade_case(c, rng, st, false));
-        // own section: its (candidate-defect) alarm must not cut the exploration above short
+        // own section (it reproduces the known finding "nested key re-declared with another type",
+        // reported once per run; every other unreadable document keeps the general signature)
         run.parallel("upgrade_nested_retype", t.pick(300, 6_000), 0.2, |c, rng, st| upgrade_case(c, rng, st, true));
     }
     if run.wants("storage") {
@@ -865,7 +867,8 @@ fn main() {
         run.parallel("storage_large", t.pick(16, 400), 0.5, |c, rng, st| block_on(storage_large_case(c, rng, st)));
     }
     if run.wants("vector_untyped") {
-        // own sections: their (candidate-defect) alarm must not cut other exploration short
+        // Vector in an untyped position around the three limits of its read-back shape (regression
+        // sections of the fixed finding "counted as one node on write, as an array on read")
         run.parallel("vector_untyped", t.pick(96, 640), 0.3, vector_untyped_case);
         run.parallel("storage_vector_untyped", t.pick(48, 320), 0.3, |c, rng, st| block_on(storage_vector_untyped_case(c, rng, st)));
     }
@@ -874,8 +877,8 @@ fn main() {
             Ok(st) => run.stats.merge(st),
             Err(_) => run.stats.inconclusive("miri driver thread panicked"),
         }
-        run.floor("miri_values_checked", 24);
-        run.floor("miri_oracle_evaluations", 60);
+        run.floor("miri_values_checked", 16);
+        run.floor("miri_oracle_evaluations", 40);
     }
 
     // evidence floors
@@ -930,7 +933,7 @@ fn main() {
     // Vector in an untyped position: both sides of the read-back budget were exercised, and the
     // accept-write => accept-read oracle was not vacuous (something within budget was accepted)
     run.floor("grey:vector_in_untyped_position", 64);
-    run.floor_set("vector_untyped_variants", 24);
+    run.floor_set("vector_untyped_variants", 30);
     run.floor("vector_untyped:read_back_within_budget:accepted", 8);
     run.floor("storage_vector_untyped:read_back_within_budget:accepted", 4);
     run.floor("storage_vector_untyped_read_back_equal", 4);
